@@ -153,9 +153,22 @@ Section Abstraction.
   Variable t : loc.
   Variable vals : list (path * sval).
 
-  Definition ref_of (q : path) (inline : string) (dflt : ref_out) : ref_out :=
-    if loc_has t (q ++ ["ref"]) then resolve (str_at vals (q ++ ["ref"; "package"])) (str_at vals (q ++ ["ref"; "schema"]))
-    else if loc_has t (q ++ [inline]) then dflt else RNil.
+  (* a reference into an implicitly imported j5 package (`object:j5.state.v1.StateMetadata`) is taken as found in
+     another file; an object / oneof field with neither a reference nor an inline body (`field child object {` `}`) is
+     an inline type without members (sourcewalk builds it), an enum field without either has no type *)
+  Definition j5_prefix : list N := runes_of_string "j5.".
+  Fixpoint is_prefix_N (p l : list N) : bool :=
+    match p, l with
+    | [], _ => true
+    | x :: r, y :: s => N.eqb x y && is_prefix_N r s
+    | _ :: _, [] => false
+    end.
+  Definition ref_of (q : path) (inline : string) (want : refkind) (dflt : ref_out) : ref_out :=
+    if loc_has t (q ++ ["ref"]) then
+      let pkg := str_at vals (q ++ ["ref"; "package"]) in
+      if is_prefix_N j5_prefix pkg then RFound want CmpbFields.FOther else resolve pkg (str_at vals (q ++ ["ref"; "schema"]))
+    else if loc_has t (q ++ [inline]) then dflt
+    else match want with CmpbFields.KMsg => dflt | CmpbFields.KEnum => RNil end.
 
   Definition int_fmt (l : list N) : intfmt :=
     if is_suffix_N (runes_of_string "UINT32") l then U32 else if is_suffix_N (runes_of_string "UINT64") l then U64
@@ -190,7 +203,7 @@ Section Abstraction.
   Definition enum_values_ok (a : path) : bool :=
     match str_at vals (a ++ ["ref"; "package"]), local_enum_options (str_at vals (a ++ ["ref"; "schema"])) with
     | [], Some opts =>
-        forallb (fun v => existsb (fun o => list_N_eqb o v || is_suffix_N o v) opts)
+        forallb (fun v => existsb (fun o => is_suffix_N o v || is_suffix_N v o) opts)
                 (array_vals (a ++ ["rules"; "in"]) ++ array_vals (a ++ ["rules"; "notIn"]))
     | _, _ => true
     end.
@@ -203,9 +216,9 @@ Section Abstraction.
     | arm :: _ =>
         let a := q ++ [arm] in
         let has n := loc_has t (a ++ [n]) in
-        if String.eqb arm "object" then TObject (ref_of a "object" RInlineObject) (bool_at vals (a ++ ["flatten"])) (has "rules")
-        else if String.eqb arm "oneof" then TOneof (ref_of a "oneof" RInlineOneof) (has "rules") (has "listRules")
-        else if String.eqb arm "enum" then TEnum (ref_of a "enum" RInlineEnum) (if has "rules" then Some (enum_values_ok a) else None) (has "listRules")
+        if String.eqb arm "object" then TObject (ref_of a "object" CmpbFields.KMsg RInlineObject) (bool_at vals (a ++ ["flatten"])) (has "rules")
+        else if String.eqb arm "oneof" then TOneof (ref_of a "oneof" CmpbFields.KMsg RInlineOneof) (has "rules") (has "listRules")
+        else if String.eqb arm "enum" then TEnum (ref_of a "enum" CmpbFields.KEnum RInlineEnum) (if has "rules" then Some (enum_values_ok a) else None) (has "listRules")
         else if String.eqb arm "bool" then TBool (has "rules") (has "listRules")
         else if String.eqb arm "bytes" then TBytes (has "rules")
         else if String.eqb arm "date" then TDate (has "rules") (has "listRules")
